@@ -1,7 +1,7 @@
 // C04.d: EdgePos::operator< (boolean_result.cpp) orders new edge vertices by
 // position, then collisionId "to make things deterministic".
 #include "vf_harness.h"
-#include "/repo/src/boolean_result.cpp"
+#include "boolean_result.cpp"
 using namespace manifold;
 static EdgePos E() {
   EdgePos e;
